@@ -129,8 +129,13 @@ def random_decide(tier, seed, n=None):
             steps.append({"op": "req", "rq": probe, "ans": [rand_validation(r, st), rand_validation(r, st)]})
             if d == CAP:
                 break
+        if i % 23 == 5:  # the same history for a URI of several thousand bytes
+            long_url = "http://res0.test/v/item?q=" + "x" * r.choice([2000, 3900, 4100, 6000, 70000])
+            for st_ in steps:
+                if st_.get("op") == "req":
+                    st_["rq"]["url"] = long_url
         out.append({"id": "rnd/%06d" % i, "backend": "fs" if i % 16 == 0 else ("fsenc" if i % 16 == 8 else "mem"),
-                    "opt": {}, "steps": steps, "grp": "", "spv": 0})
+                    "opt": {"tz": r.choice([-5, 2])} if i % 11 == 4 else {}, "steps": steps, "grp": "", "spv": 0})
     return out
 
 
@@ -156,7 +161,8 @@ def random_vary(tier, seed, n=None):
         total = 0
         for _ in range(r.randrange(3, 9)):
             req = rq(u=r.choice([0, 0, 0, 1]), sel=list(r.choice(SELS)), selsp=r.randrange(0, 3), usp=r.randrange(0, 6),
-                     fl=["no-cache"] if r.random() < 0.1 else [])
+                     fl=["no-cache"] if r.random() < 0.1 else [],
+                     rawkeys=1 if i % 5 == 2 else 0)   # a caller that writes to the header map directly, with lower-case keys
             a1 = rand_vary_ans(r)
             a2 = rand_vary_ans(r)
             if r.random() < 0.35:
@@ -167,7 +173,28 @@ def random_vary(tier, seed, n=None):
             steps.append({"op": "tick", "d": d})
         out.append({"id": "rndvary/%06d" % i, "backend": "fs" if i % 10 == 0 else ("fsenc" if i % 10 == 5 else "mem"),
                     "opt": {}, "steps": steps, "grp": "", "spv": 0})
-    return out + refresh_cycles(tier)
+    return out + refresh_cycles(tier) + reused_requests(tier)
+
+
+def reused_requests(tier):
+    """a caller that reuses its request object: once the response is back it changes the selecting header for its next use,
+    while the cache's background revalidation of the previous exchange may still be running"""
+    out = []
+    i = 0
+    for et, lm in ((1, NONE), (0, NONE), (0, 40)):
+        for lat in (0, 2):
+            for bgk in ("full", "304"):
+                if bgk == "304" and et == 0 and lm == NONE:
+                    continue
+                stored = ans(ccp=1, ma=5, swr=1000, etag=et, lm=lm, vary=[2])
+                bg = ans(k="304", st=304, ccp=1, ma=50, etag=et, lat=lat) if bgk == "304" else ans(ccp=1, ma=50, swr=1000, etag=et, lm=lm, vary=[2], lat=lat)
+                steps = [{"op": "req", "rq": rq(sel=[0, 0, 1, 0]), "ans": [stored]}, {"op": "tick", "d": 9},
+                         {"op": "req", "rq": rq(sel=[0, 0, 1, 0]), "ans": [bg], "reuse": 2}, {"op": "tick", "d": lat + 1},
+                         {"op": "req", "rq": rq(sel=[0, 0, 2, 0]), "ans": [ans(ccp=1, ma=50, etag=5, vary=[2])]}, {"op": "tick", "d": 1},
+                         {"op": "req", "rq": rq(sel=[0, 0, 1, 0]), "ans": [ans(ccp=1, ma=50, etag=6, vary=[2])]}]
+                out.append({"id": "reuse/%02d" % i, "backend": "mem", "opt": {}, "steps": steps, "grp": "", "spv": 0})
+                i += 1
+    return out
 
 
 def refresh_cycles(tier):
@@ -357,6 +384,28 @@ def periodic(tier, seed, n=None):
     return out
 
 
+def client_conditionals(tier):
+    """the client's own conditional request meets a stored response with or without validators, fresh or stale, and the origin
+    answers 304 to it or sends a new representation; a later plain GET must get a full response"""
+    out = []
+    j = 0
+    for et, lm in ((0, NONE), (1, NONE), (0, 100), (1, 100)):
+        for stale in (0, 1):
+            for cond in ({"inm": 9}, {"inm": 1}, {"ims": 50}, {"ims": 100, "inm": 9}):
+                for how in ("304", "full"):
+                    for nocache in (0, 1):
+                        stored = ans(ccp=1, ma=5, etag=et, lm=lm)
+                        reply = ans(k="304", st=304, ccp=1, ma=50, etag=cond.get("inm", et) if cond.get("inm") else et) if how == "304" \
+                            else ans(ccp=1, ma=50, etag=2)
+                        steps = [{"op": "req", "rq": rq(), "ans": [stored]}, {"op": "tick", "d": 9 if stale else 2},
+                                 {"op": "req", "rq": rq(fl=["no-cache"] if nocache else [], **cond), "ans": [reply, ans(ccp=1, ma=50, etag=3)]},
+                                 {"op": "tick", "d": 1}, {"op": "req", "rq": rq(), "ans": [ans(ccp=1, ma=50, etag=4)]},
+                                 {"op": "tick", "d": 100}, {"op": "req", "rq": rq(), "ans": [ans(ccp=1, ma=50, etag=5)]}]
+                        out.append({"id": "clientcond/%03d" % j, "backend": "fs" if j % 5 == 0 else "mem", "opt": {}, "steps": steps, "grp": "", "spv": 0})
+                        j += 1
+    return out
+
+
 def random_store(tier, seed, n=None):
     """every status 100-599 with random directives; bodies failing at every byte"""
     r = random.Random(seed * 49979687 + 13)
@@ -378,23 +427,7 @@ def random_store(tier, seed, n=None):
                      {"op": "req", "rq": rq(), "ans": [ans(ccp=1, ma=60, etag=2)]}]
             out.append({"id": "rndstore/%05d" % i, "backend": "mem", "opt": {}, "steps": steps, "grp": "", "spv": 0})
             i += 1
-    # the client's own conditional request meets a stored response with or without validators, fresh or stale, and the origin
-    # answers 304 to it or sends a new representation; a later plain GET must get a full response
-    j = 0
-    for et, lm in ((0, NONE), (1, NONE), (0, 100), (1, 100)):
-        for stale in (0, 1):
-            for cond in ({"inm": 9}, {"inm": 1}, {"ims": 50}, {"ims": 100, "inm": 9}):
-                for how in ("304", "full"):
-                    for nocache in (0, 1):
-                        stored = ans(ccp=1, ma=5, etag=et, lm=lm)
-                        reply = ans(k="304", st=304, ccp=1, ma=50, etag=cond.get("inm", et) if cond.get("inm") else et) if how == "304" \
-                            else ans(ccp=1, ma=50, etag=2)
-                        steps = [{"op": "req", "rq": rq(), "ans": [stored]}, {"op": "tick", "d": 9 if stale else 2},
-                                 {"op": "req", "rq": rq(fl=["no-cache"] if nocache else [], **cond), "ans": [reply, ans(ccp=1, ma=50, etag=3)]},
-                                 {"op": "tick", "d": 1}, {"op": "req", "rq": rq(), "ans": [ans(ccp=1, ma=50, etag=4)]},
-                                 {"op": "tick", "d": 100}, {"op": "req", "rq": rq(), "ans": [ans(ccp=1, ma=50, etag=5)]}]
-                        out.append({"id": "clientcond/%03d" % j, "backend": "fs" if j % 5 == 0 else "mem", "opt": {}, "steps": steps, "grp": "", "spv": 0})
-                        j += 1
+    out += client_conditionals(tier)
     # body stream failing at every byte (the default body is 19 bytes long), several framings
     for fr in (0, 1, 2):
         for cut in range(0, 22 if tier == "quick" else 40):
